@@ -212,10 +212,10 @@ CLAIMED["C06"] = dict(
          "7 is stated at the stream level (its admissibility hypotheses are what TSN dedupe and the sender's "
          "FORWARD-TSN construction provide; that composition is not mechanised); end-to-end non-interference and recovery after healing are statements over two endpoints, observed on the "
          "two-endpoint simulator (mixed reliable / PR channels, faults, heal, probe message per channel), not "
-         "proved; six genuine stall/loss defects found that way are repaired in /repo. REFUTED on unordered partially "
-         "reliable channels (theorem C06_unordered_message_stuck_refuted, a witness evaluated on the model and replayed "
-         "on the code from corpus/C06.jsonl on every run): a complete message that arrives behind the fragments of an "
-         "abandoned one stays in the reassembly queue after the FORWARD-TSN (recorded finding K11).",
+         "proved; six genuine stall/loss defects found that way are repaired in /repo. (8) when the reassembly scan meets a TSN "
+         "gap inside a run of unordered fragments it restarts at the chunk at which the gap showed: a complete unordered message "
+         "there is delivered in the same pass (the history that used to lose such a message is replayed from corpus/C06.jsonl "
+         "on every run; defect repaired in /repo).",
     design_ref="5 / C06",
     note="Uses Model/SctpTx.v (sender) and Model/SctpRecv.v (receiver), each tied to the real RTCSctpTransport by "
          "its differential run (sender histories dominated by retransmit-/lifetime-limited messages larger than "
